@@ -8,6 +8,9 @@ package main
 import (
 	"fmt"
 	"os"
+	"path/filepath"
+	"runtime/debug"
+	"runtime/pprof"
 	"sort"
 	"strings"
 	"syscall"
@@ -17,6 +20,8 @@ import (
 
 	"github.com/osmosis-labs/osmosis/v31/zzverif/core"
 )
+
+var scratchDir string
 
 var tags = []string{"1", "1000", "1000000", "30%"}
 
@@ -30,15 +35,44 @@ type replay struct {
 }
 
 type checker struct {
-	w      *World
-	f      *core.Flags
-	r      *core.Result
-	st     *Stats
-	routes []Route
-	splits []Split
-	item   int             // running index of work items (state x sender x route), the sharding unit
-	done   map[string]bool // signatures already confirmed and reported
-	raw    map[string][]string
+	w            *World
+	f            *core.Flags
+	r            *core.Result
+	st           *Stats
+	routes       []Route
+	splits       []Split
+	modes        []string        // probe set by number of prior ops: "full", "affected" (only routes through a pool the prior ops touched), "none"
+	item         int             // running index of work items (state x sender x route), the sharding unit
+	done         map[string]bool // signatures already confirmed and reported
+	raw          map[string][]string
+	states       map[string]int64 // states by probe-set mode
+	perAssertion map[string]int
+}
+
+const maxSignaturesPerAssertion = 6
+
+// plan gives, per tier and world, the probe set by number of prior operations (the last entry is the
+// exploration depth).
+func plan(tier, fee string) []string {
+	if tier == "thorough" {
+		if fee == FeeShare {
+			return []string{"full", "full", "affected"}
+		}
+		return []string{"full", "full"}
+	}
+	if fee == FeeShare {
+		return []string{"full", "affected"}
+	}
+	return []string{"full"}
+}
+
+func touches(rt Route, pools map[uint64]bool) bool {
+	for _, h := range rt {
+		if pools[h.Pool] {
+			return true
+		}
+	}
+	return false
 }
 
 // amount returns the literal amount for a tag on a route in a state.
@@ -50,7 +84,8 @@ func (ck *checker) amount(ctx sdk.Context, rt Route, tag int) string {
 	for _, h := range rt {
 		res := ck.w.reserves(ctx, h.Pool)
 		for _, d := range []string{h.In, h.Out} {
-			if x := res.AmountOf(d); min.IsNil() || x.LT(min) {
+			// (the alloyed asset is minted and burnt by its pool: it has no reserve)
+			if x := res.AmountOf(d); x.IsPositive() && (min.IsNil() || x.LT(min)) {
 				min = x
 			}
 		}
@@ -69,10 +104,25 @@ func (ck *checker) mkSplit(ctx sdk.Context, sp Split, kind string, ti int) Case 
 
 // Check is the per-state oracle: the complete probe set, dealt to the shards by work item.
 func (ck *checker) Check(ctx sdk.Context, l *Ledger, _ func(a, s, d string)) {
+	mode := "none"
+	if len(l.Ops) < len(ck.modes) {
+		mode = ck.modes[len(l.Ops)]
+	}
+	ck.states[mode]++
+	if mode == "none" {
+		return
+	}
+	touched := map[uint64]bool{}
+	for _, op := range l.Ops {
+		touched[op.P] = true
+	}
 	h0 := core.StateHash(ck.w.App, ctx, nil)
 	for _, sender := range senders {
 		cfg := Config{Fee: ck.w.Fee, Sender: sender}
 		for _, rt := range ck.routes {
+			if mode == "affected" && !touches(rt, touched) {
+				continue
+			}
 			idx := ck.item
 			ck.item++
 			if !ck.f.Mine(idx) {
@@ -95,6 +145,9 @@ func (ck *checker) Check(ctx sdk.Context, l *Ledger, _ func(a, s, d string)) {
 			}
 		}
 		for _, sp := range ck.splits {
+			if mode == "affected" && !touches(sp[0], touched) && !touches(sp[1], touched) {
+				continue
+			}
 			idx := ck.item
 			ck.item++
 			if !ck.f.Mine(idx) {
@@ -131,10 +184,26 @@ func has(fs []Finding, assertion string) (Finding, bool) {
 
 // lattice is the initial state of one world with memoised evaluations: the space of shrink candidates.
 type lattice struct {
-	w     *World
-	init  sdk.Context
-	initH [32]byte
-	memo  map[string][]Finding
+	w      *World
+	init   sdk.Context
+	initH  [32]byte
+	memo   map[string][]Finding
+	routes []Route
+	splits []Split
+}
+
+// valid: every hop of the route exists in this world (pool 9 exists in one world only).
+func (l *lattice) valid(rt Route) bool {
+	for _, h := range rt {
+		if h.Pool > uint64(len(l.w.Pools)) {
+			return false
+		}
+		pi := l.w.pool(h.Pool)
+		if !pi.has(h.In) || !pi.has(h.Out) {
+			return false
+		}
+	}
+	return true
 }
 
 var lattices = map[string]*lattice{}
@@ -146,6 +215,8 @@ func latticeFor(fee string) *lattice {
 	w := NewWorld(fee)
 	init, _ := w.Env.Ctx.CacheContext()
 	l := &lattice{w: w, init: init, initH: core.StateHash(w.App, init, nil), memo: map[string][]Finding{}}
+	l.routes = allRoutes(w.Pools, w.Denoms, 4)
+	l.splits = allSplits(l.routes)
 	lattices[fee] = l
 	return l
 }
@@ -190,8 +261,9 @@ func tagIndex(c Case) int {
 // state (no prior activity). (1) n = length of the shortest contiguous sub-route (1 hop, then 2 hops)
 // that fails with some amount of the alphabet in the case's own configuration. (2) The result is the
 // first failing case in the fixed global order (configuration, route of length n, amount), searched up
-// to the case's own configuration. Routes that do not reduce below 3 hops, and split routes, are only
-// moved to the initial state and to the first configuration in which they fail too. Every candidate
+// to the case's own configuration. Routes that do not reduce below 3 hops are only moved to the initial
+// state and to the first configuration in which they fail too; a split route is replaced by the first
+// failing (split pair, amount pair) of the first configuration in which any fails. Every candidate
 // is re-executed on the real code; the result does not depend on which shard found the original.
 // If nothing simpler fails, the original case is kept.
 func (ck *checker) shrink(cfg Config, ops []Op, c Case, fd Finding) (Config, []Op, Case, Finding) {
@@ -215,7 +287,7 @@ func (ck *checker) shrink(cfg Config, ops []Op, c Case, fd Finding) (Config, []O
 		for _, s := range senders {
 			o := latticeFor(fee)
 			if n > 0 {
-				for _, rt := range ck.routes {
+				for _, rt := range o.routes {
 					if len(rt) != n {
 						continue
 					}
@@ -226,15 +298,26 @@ func (ck *checker) shrink(cfg Config, ops []Op, c Case, fd Finding) (Config, []O
 						}
 					}
 				}
+			} else if c.split() {
+				// split routes: the first failing (split pair, amount pair) of the world, in the fixed order
+				for _, sp := range o.splits {
+					for ti := range splitTags {
+						x := o.splitCase(sp, c.Kind, ti)
+						if f, ok := has(o.findings(s, x), fd.Assertion); ok {
+							return Config{Fee: fee, Sender: s}, nil, x, f
+						}
+					}
+				}
 			} else {
 				var x Case
-				if c.split() {
-					x = o.splitCase(Split{c.Legs[0], c.Legs[1]}, c.Kind, tagIndex(c))
-				} else {
+				ok := false
+				if ok = o.valid(c.Route); ok {
 					x = o.single(c.Route, c.Kind, tagIndex(c))
 				}
-				if f, ok := has(o.findings(s, x), fd.Assertion); ok {
-					return Config{Fee: fee, Sender: s}, nil, x, f
+				if ok {
+					if f, ok := has(o.findings(s, x), fd.Assertion); ok {
+						return Config{Fee: fee, Sender: s}, nil, x, f
+					}
 				}
 			}
 			if fee == cfg.Fee && s == cfg.Sender {
@@ -250,16 +333,21 @@ func (ck *checker) report(cfg Config, ops []Op, c Case, fd Finding) {
 	if rs := ck.raw[fd.Assertion]; len(rs) < 3 {
 		ck.raw[fd.Assertion] = append(rs, sig(fd.Assertion, cfg, c, ops))
 	}
+	if ck.perAssertion[fd.Assertion] >= maxSignaturesPerAssertion {
+		return // counted above; a shard reports at most this many distinct minimal cases per assertion
+	}
 	mcfg, mops, mc, mf := ck.shrink(cfg, ops, c, fd)
 	s := sig(mf.Assertion, mcfg, mc, mops)
 	if ck.done[s] {
 		return
 	}
 	ck.done[s] = true
+	ck.perAssertion[fd.Assertion]++
 	rp := replay{Config: mcfg, Ops: append([]Op{}, mops...), Case: mc}
 	// before believing it: the case must fail identically on a fresh application
 	if d, ok := confirm(rp, mf.Assertion); !ok || d != mf.Detail {
 		fmt.Fprintf(os.Stderr, "harness: violation %s did not reproduce on a fresh application (first: %q, fresh: %q)\n", s, mf.Detail, d)
+		os.RemoveAll(scratchDir)
 		os.Exit(2)
 	}
 	ck.r.AddViolation(core.Violation{Property: ck.r.Property, Assertion: mf.Assertion, Signature: s, Detail: mf.Detail, Replay: rp})
@@ -316,36 +404,66 @@ func runReplay(f *core.Flags, r *core.Result) {
 func main() {
 	f := core.ParseFlags()
 	r := core.NewResult(f.Prop)
+	debug.SetGCPercent(400) // short-lived garbage of the message handlers dominates; a shard's live heap is small
 	if f.Prop != "C05" {
 		fmt.Fprintln(os.Stderr, "router05: unknown property", f.Prop)
 		os.Exit(2)
+	}
+	// Every application instance gets its home directory (which holds the wasm VM's module cache) from
+	// os.MkdirTemp: point that at a scratch directory of this process and remove it at the end. Shards run
+	// with the work directory bin/run deletes afterwards as cwd, so nothing survives a crash either; a replay
+	// may be started from anywhere and uses the system's temporary directory.
+	base := "."
+	if f.Replay != "" {
+		base = os.TempDir()
+	}
+	scratch, err := os.MkdirTemp(base, "router05-home-")
+	if err != nil {
+		fmt.Fprintln(os.Stderr, "router05: scratch directory:", err)
+		os.Exit(2)
+	}
+	if scratch, err = filepath.Abs(scratch); err != nil {
+		fmt.Fprintln(os.Stderr, "router05: scratch directory:", err)
+		os.Exit(2)
+	}
+	os.Setenv("TMPDIR", scratch)
+	scratchDir = scratch
+	defer os.RemoveAll(scratch)
+	if pf := os.Getenv("VERIF_CPUPROFILE"); pf != "" && f.Shard == 0 {
+		if fh, err := os.Create(pf); err == nil {
+			pprof.StartCPUProfile(fh)
+			defer pprof.StopCPUProfile()
+		}
 	}
 	if f.Replay != "" {
 		runReplay(f, r)
 		core.Finish(f, r)
 		return
 	}
-	depth := 1
-	if f.Tier == "thorough" {
-		depth = 2
-	}
 	st := newStats()
 	allSeen := core.NewSeen()
 	raw := map[string][]string{}
 	done := map[string]bool{}
-	var nRoutes, nSplits int
-	byLen := map[int]int{}
+	states := map[string]int64{}
+	perAssertion := map[string]int{}
+	routeInfo := map[string]interface{}{}
+	planInfo := map[string]interface{}{}
+	maxDepth := 0
 	for wi, fee := range feeSettings {
-		w := latticeFor(fee).w
-		routes := allRoutes(w.Pools, 4)
-		splits := allSplits(routes)
-		nRoutes, nSplits = len(routes), len(splits)
-		if wi == 0 {
-			for _, rt := range routes {
-				byLen[len(rt)]++
-			}
+		lt := latticeFor(fee)
+		w := lt.w
+		modes := plan(f.Tier, fee)
+		depth := len(modes) - 1
+		if depth > maxDepth {
+			maxDepth = depth
 		}
-		ck := &checker{w: w, f: f, r: r, st: st, routes: routes, splits: splits, done: done, raw: raw}
+		byLen := map[int]int{}
+		for _, rt := range lt.routes {
+			byLen[len(rt)]++
+		}
+		routeInfo[fee] = fmt.Sprintf("%d pools, %d routes (by hops: %v), %d split pairs", len(w.Pools), len(lt.routes), byLen, len(lt.splits))
+		planInfo[fee] = fmt.Sprintf("probe set by number of prior operations: %v; prior-activity alphabet of %d operations", modes, len(w.alphabet(w.Init)))
+		ck := &checker{w: w, f: f, r: r, st: st, routes: lt.routes, splits: lt.splits, modes: modes, done: done, raw: raw, states: states, perAssertion: perAssertion}
 		sc := &core.Scenario[Op, *Ledger]{App: w.App, Stores: nil, Config: fee, Enabled: w.Enabled, Apply: w.Apply, Check: ck.Check}
 		// Every shard walks the (small) state space itself; the probe set of each state is what is
 		// dealt to the shards. The explorer therefore runs unsharded; its own counters are kept by shard 0.
@@ -368,6 +486,10 @@ func main() {
 		h[0], h[1] = 0xff, byte(wi+1)
 		allSeen.Add(h)
 	}
+	r.Extra["eq_cosmwasm_probe_digest"] = cosmwasmProbe(st)
+	if r.Exhaustive {
+		r.DepthCompleted = maxDepth // per world: see coverage.plan
+	}
 	for _, l := range lattices {
 		l.w.Env.Close()
 	}
@@ -383,7 +505,7 @@ func main() {
 	for k, v := range st.Extra {
 		r.Extra[k] = v
 	}
-	if len(st.Notes) > 0 {
+	if len(st.Notes) > 0 && f.Shard == 0 { // a few literal samples are enough: shard 0's
 		n := map[string]interface{}{}
 		for k, v := range st.Notes {
 			n[k] = v
@@ -403,8 +525,15 @@ func main() {
 		r.Extra["raw_failing_case_samples"] = n
 	}
 	r.Extra["configurations"] = fmt.Sprintf("taker fee %v x sender %v", feeSettings, senders)
-	r.Extra["routes"] = fmt.Sprintf("%d routes (by hops: %v), %d split pairs; amounts %v; exact-in and exact-out", nRoutes, byLen, nSplits, tags)
-	r.Extra["prior_activity_depth"] = depth
+	r.Extra["routes"] = routeInfo
+	r.Extra["plan"] = planInfo
+	r.Extra["amounts"] = fmt.Sprintf("%v; exact-in and exact-out", tags)
+	r.Extra["prior_activity_depth"] = maxDepth
+	if f.Shard == 0 {
+		for k, v := range states {
+			r.Extra["sum_states_with_probe_set_"+k] = float64(v)
+		}
+	}
 	r.Outcomes = int64(len(r.Rejected) + 1)
 	var ru syscall.Rusage
 	if syscall.Getrusage(syscall.RUSAGE_SELF, &ru) == nil {
